@@ -152,7 +152,7 @@ QueueOK == /\ NoDup(q)
            /\ ful => q = <<>>
            /\ value # 0 => ful
 Refines == /\ ful = oFul /\ senders = oSenders /\ receivers = oReceivers
-           /\ (value # 0) = (oVal # 0 /\ (Broadcast \/ ~oTaken)) \/ dead
+           /\ (dead \/ ((value # 0) = (oVal # 0 /\ (Broadcast \/ ~oTaken))))
            /\ \A f \in Slots : /\ (oA[f] = "none") = (st[f] = "none")
                                /\ (oA[f] = "done") = fin[f]
                                /\ (oA[f] = "pending") = (~fin[f] /\ (st[f] = "reg" \/ (st[f] = "unreg" /\ oLastW[f] # "-")))
